@@ -37,7 +37,7 @@ impl Prop for P {
         }
     }
     fn cases(tier: Tier) -> u64 {
-        tier.pick(6000, 120_000)
+        tier.pick(40_000, 400_000)
     }
     fn strategy(tier: Tier) -> BoxedStrategy<Case> {
         let data = match tier {
